@@ -59,6 +59,8 @@ const (
 	prefRoot    = "{ROOT}/"
 	prefParent  = "{PARENT}/"
 	markOutside = "outside:"
+	dsRootPerm  = os.FileMode(0o750)
+	dsChildPerm = os.FileMode(0o700)
 )
 
 var prefixes = []string{prefNone, prefSlash, prefRoot, prefParent}
@@ -72,6 +74,7 @@ type caseSpec struct {
 	Rel    string   `json:"rel"`        // the segments joined by "/"
 	Cwd    string   `json:"cwd,omitempty"`
 	Name   string   `json:"name_in_this_run,omitempty"`
+	Audit  bool     `json:"audit,omitempty"` // witness of the strace read audit (oracle ii)
 }
 
 func (cs caseSpec) rootName() string { return cs.Chain[len(cs.Chain)-1] }
@@ -164,10 +167,81 @@ func must(err error) {
 }
 
 type sbox struct {
-	caseDir string
-	S       string
-	root    string
-	excl    []string
+	caseDir      string
+	S            string
+	root         string
+	excl         []string          // subtrees the component may change (its root)
+	pristine     map[string]string // full snapshot of caseDir right after building
+	outsideDirty bool              // the last case changed something outside the root: rebuild everything
+	insideDirty  bool              // the last case changed something inside the root only: rebuild the root
+}
+
+// worker owns a directory and the sandboxes in it. Building a sandbox is the
+// expensive part of a case, so a sandbox is kept for the next case of the same
+// component and root, with the same guarantee as a fresh one: after every case
+// the whole tree is compared with the pristine snapshot; if it is identical the
+// sandbox is reused as it is, if only the inside of the root differs the root
+// is deleted and re-created by the same code, and if anything outside differs
+// the whole sandbox is deleted and rebuilt. Every case starts from the same tree.
+type worker struct {
+	dir   string
+	boxes map[string]*sbox
+}
+
+func (w *worker) sandbox(cs caseSpec) *sbox {
+	key := cs.Comp + "-" + strings.Join(cs.Chain, "_")
+	sb := w.boxes[key]
+	if sb != nil && !sb.outsideDirty {
+		if sb.insideDirty {
+			sb.buildInside(cs)
+		}
+		return sb
+	}
+	sb = newSbox(filepath.Join(w.dir, key), cs.Chain)
+	if cs.Comp == "unpack" {
+		// chain = storage chain + tmp + unpack dir
+		storage := filepath.Dir(filepath.Dir(sb.root))
+		must(os.MkdirAll(filepath.Join(storage, "pk"), 0o755))
+		sb.excl = []string{sb.root, filepath.Join(storage, "pk", unpackRoot)}
+	} else {
+		sb.excl = []string{sb.root}
+	}
+	sb.populate(cs.Chain, cs.Comp == "scan")
+	sb.buildInside(cs)
+	sb.pristine = snapshot(sb.caseDir)
+	if w.boxes == nil {
+		w.boxes = map[string]*sbox{}
+	}
+	w.boxes[key] = sb
+	return sb
+}
+
+// buildInside (re-)creates the component's root with its initial content.
+func (sb *sbox) buildInside(cs caseSpec) {
+	rn := cs.rootName()
+	for _, e := range sb.excl {
+		must(os.RemoveAll(e))
+	}
+	sb.insideDirty = false
+	switch cs.Comp {
+	case "fstree", "dirstruct":
+		sb.populateInside(sb.root, rn)
+		if cs.Comp == "dirstruct" {
+			// the modes the DirStructure under test prescribes, so that a call that
+			// creates nothing leaves the tree untouched (everything outside is 0755)
+			must(os.Chmod(sb.root, dsRootPerm))
+			must(os.Chmod(filepath.Join(sb.root, "a"), dsChildPerm))
+		}
+	case "scan":
+		must(os.MkdirAll(sb.root, 0o755))
+		reg := &updater.ResourceRegistry{Name: "c18"}
+		must(reg.Initialize(utils.NewDirStructure(sb.root, 0o755))) // creates <root>/tmp
+		sb.populateInside(sb.root, rn)
+		sb.file(filepath.Join(sb.root, "in_v1-0-0.bin"), "inside:")
+		sb.file(filepath.Join(sb.root, "a", "in_v1-0-0.bin"), "inside:")
+	case "unpack":
+		// neither the unpack dir nor the destination exist before unpacking
+	}
 }
 
 func (sb *sbox) file(abs, tag string) {
@@ -180,31 +254,36 @@ func (sb *sbox) file(abs, tag string) {
 // directory "<rootname>-other" (with a/a and <rootname> inside) - except where
 // that name is the next directory of the chain itself.
 func (sb *sbox) populate(chain []string, versioned bool) {
-	rn := chain[len(chain)-1]
 	cur := sb.S
 	for i := 0; i < len(chain); i++ {
 		must(os.MkdirAll(cur, 0o755))
-		for _, n := range []string{"a", rn, rn + "-other"} {
-			if n == chain[i] {
-				continue
-			}
-			p := filepath.Join(cur, n)
-			if n == rn+"-other" {
-				must(os.MkdirAll(filepath.Join(p, "a"), 0o755))
-				sb.file(filepath.Join(p, "a", "a"), markOutside)
-				sb.file(filepath.Join(p, rn), markOutside)
-				if versioned {
-					sb.file(filepath.Join(p, "out_v1-0-0.bin"), markOutside)
-					sb.file(filepath.Join(p, "a", "out_v1-0-0.bin"), markOutside)
-				}
-			} else {
-				sb.file(p, markOutside)
-			}
-		}
-		if versioned {
-			sb.file(filepath.Join(cur, "out_v1-0-0.bin"), markOutside)
-		}
+		sb.populateLevel(cur, chain[i], chain[len(chain)-1], versioned)
 		cur = filepath.Join(cur, chain[i])
+	}
+}
+
+// populateLevel creates the outside sentinels of one directory above the root;
+// next is the chain directory that continues towards the root.
+func (sb *sbox) populateLevel(cur, next, rn string, versioned bool) {
+	for _, n := range []string{"a", rn, rn + "-other"} {
+		if n == next {
+			continue
+		}
+		p := filepath.Join(cur, n)
+		if n == rn+"-other" {
+			must(os.MkdirAll(filepath.Join(p, "a"), 0o755))
+			sb.file(filepath.Join(p, "a", "a"), markOutside)
+			sb.file(filepath.Join(p, rn), markOutside)
+			if versioned {
+				sb.file(filepath.Join(p, "out_v1-0-0.bin"), markOutside)
+				sb.file(filepath.Join(p, "a", "out_v1-0-0.bin"), markOutside)
+			}
+		} else {
+			sb.file(p, markOutside)
+		}
+	}
+	if versioned {
+		sb.file(filepath.Join(cur, "out_v1-0-0.bin"), markOutside)
 	}
 }
 
@@ -223,18 +302,10 @@ func newSbox(caseDir string, chain []string) *sbox {
 	return &sbox{caseDir: caseDir, S: S, root: filepath.Join(append([]string{S}, chain...)...)}
 }
 
-// snapshot describes everything under dir except the excluded subtrees.
-func snapshot(dir string, excl []string) map[string]string {
+// snapshot describes everything under dir (names, types, modes, sizes, hashes).
+func snapshot(dir string) map[string]string {
 	out := map[string]string{}
 	_ = filepath.WalkDir(dir, func(p string, d fs.DirEntry, err error) error {
-		for _, e := range excl {
-			if within(p, e) {
-				if d != nil && d.IsDir() {
-					return filepath.SkipDir
-				}
-				return nil
-			}
-		}
 		rel, _ := filepath.Rel(dir, p)
 		if err != nil {
 			out[rel] = "unreadable: " + err.Error()
@@ -268,24 +339,36 @@ func snapshot(dir string, excl []string) map[string]string {
 	return out
 }
 
-func diffSnap(before, after map[string]string) []string {
-	var ch []string
+// diffSnap lists the differences between two snapshots of dir, leaving out
+// everything inside the excluded subtrees; dirty reports whether anything at
+// all (excluded or not) differs.
+func diffSnap(dir string, before, after map[string]string, excl []string) (ch []string, dirty bool) {
+	add := func(rel, text string) {
+		dirty = true
+		abs := filepath.Join(dir, rel)
+		for _, e := range excl {
+			if within(abs, e) {
+				return
+			}
+		}
+		ch = append(ch, text)
+	}
 	for k, v := range before {
 		w, ok := after[k]
 		switch {
 		case !ok:
-			ch = append(ch, fmt.Sprintf("deleted %s (was %s)", k, v))
+			add(k, fmt.Sprintf("deleted %s (was %s)", k, v))
 		case v != w:
-			ch = append(ch, fmt.Sprintf("modified %s (%s => %s)", k, v, w))
+			add(k, fmt.Sprintf("modified %s (%s => %s)", k, v, w))
 		}
 	}
 	for k, w := range after {
 		if _, ok := before[k]; !ok {
-			ch = append(ch, fmt.Sprintf("created %s (%s)", k, w))
+			add(k, fmt.Sprintf("created %s (%s)", k, w))
 		}
 	}
 	sort.Strings(ch)
-	return ch
+	return ch, dirty
 }
 
 // absolute places a "/"-prefixed name could reach if a component escaped.
@@ -315,6 +398,10 @@ type caseResult struct {
 	outData  []string // content handed back that exists only outside the root
 	extra    string
 	panicked string
+	// for the read audit: what the call may touch
+	allowSub   []string
+	allowExact []string
+	sandbox    string
 }
 
 func errStr(err error) (string, bool) {
@@ -324,25 +411,26 @@ func errStr(err error) (string, bool) {
 	return err.Error(), true
 }
 
+var workDir string // the temp dir of this run
+
 var cwdMu sync.Mutex // held by whoever changes the process working directory
 
-func runCase(cs caseSpec, caseDir string) (res caseResult) {
+func runCase(cs caseSpec, w *worker) (res caseResult) {
 	res.done = true
 	if cs.Comp == "bridge" {
 		return runBridge(cs)
 	}
-	sb := newSbox(caseDir, cs.Chain)
-	defer func() { _ = os.RemoveAll(caseDir) }()
-	rn := cs.rootName()
+	sb := w.sandbox(cs)
+	before := sb.pristine
 	name := expandName(cs, sb.root)
 	res.name = name
 
 	var op func() error
+	pre, post := func() {}, func() {}
+	res.sandbox = sb.S
+	res.allowSub = append([]string{os.TempDir()}, sb.excl...)
 	switch cs.Comp {
 	case "fstree":
-		sb.populate(cs.Chain, false)
-		sb.populateInside(sb.root, rn)
-		sb.excl = []string{sb.root}
 		st, err := fstree.NewFSTree("db", sb.root)
 		must(err)
 		res.target = filepath.Join(sb.root, name)
@@ -383,11 +471,8 @@ func runCase(cs caseSpec, caseDir string) (res caseResult) {
 			panic("unknown op")
 		}
 	case "dirstruct":
-		sb.populate(cs.Chain, false)
-		sb.populateInside(sb.root, rn)
-		sb.excl = []string{sb.root}
-		ds := utils.NewDirStructure(sb.root, 0o750)
-		ds.ChildDir("a", 0o700)
+		ds := utils.NewDirStructure(sb.root, dsRootPerm)
+		ds.ChildDir("a", dsChildPerm)
 		switch cs.Op {
 		case "EnsureAbsPath":
 			if filepath.IsAbs(name) {
@@ -414,29 +499,26 @@ func runCase(cs caseSpec, caseDir string) (res caseResult) {
 			op = func() error { return ds.EnsureRelDir(parts...) }
 		}
 	case "unpack":
-		// chain = storage chain + tmp + unpack dir
+		// chain = storage chain + tmp + unpack dir. A fresh registry per case:
+		// its initialisation wipes <storage>/tmp, so the sentinels of that one
+		// level are put back; the archive carries the enumerated name.
 		storage := filepath.Dir(filepath.Dir(sb.root))
-		must(os.MkdirAll(storage, 0o755))
+		sb.buildInside(cs)
 		reg := &updater.ResourceRegistry{Name: "c18"}
 		must(reg.Initialize(utils.NewDirStructure(storage, 0o755)))
-		sb.populate(cs.Chain, false)
-		must(os.MkdirAll(filepath.Join(storage, "pk"), 0o755))
+		sb.populateLevel(filepath.Dir(sb.root), unpackRoot, unpackRoot, false)
 		must(os.WriteFile(filepath.Join(storage, "pk", unpackRoot+".zip"), mkZip(name), 0o644))
 		must(reg.AddResource(unpackID, unpackVer, nil, true, false, false))
 		reg.SelectVersions()
 		reg.AutoUnpack = []string{unpackID}
-		sb.excl = []string{sb.root, filepath.Join(storage, "pk", unpackRoot)}
+		// the resource's own files and the registry directories leading to them
+		res.allowExact = []string{storage, filepath.Join(storage, "tmp"), filepath.Join(storage, "pk"), filepath.Join(storage, "pk", unpackRoot+".zip")}
 		res.target = filepath.Join(sb.root, name)
 		op = func() error { return reg.UnpackResources() }
+		before = snapshot(sb.caseDir)
 	case "scan":
-		must(os.MkdirAll(sb.root, 0o755))
 		reg := &updater.ResourceRegistry{Name: "c18"}
-		must(reg.Initialize(utils.NewDirStructure(sb.root, 0o755)))
-		sb.populate(cs.Chain, true)
-		sb.populateInside(sb.root, rn)
-		sb.file(filepath.Join(sb.root, "in_v1-0-0.bin"), "inside:")
-		sb.file(filepath.Join(sb.root, "a", "in_v1-0-0.bin"), "inside:")
-		sb.excl = []string{sb.root}
+		must(reg.Initialize(utils.NewDirStructure(sb.root, 0o755))) // wipes and re-creates <root>/tmp: same tree
 		cwd := filepath.Dir(sb.root)
 		if cs.Cwd == "root" {
 			cwd = sb.root
@@ -449,11 +531,12 @@ func runCase(cs caseSpec, caseDir string) (res caseResult) {
 		default:
 			res.target = filepath.Join(cwd, name)
 		}
+		if !filepath.IsAbs(name) {
+			// only relative names are resolved against the working directory
+			pre = func() { cwdMu.Lock(); must(os.Chdir(cwd)) }
+			post = func() { must(os.Chdir("/")); cwdMu.Unlock() }
+		}
 		op = func() error {
-			cwdMu.Lock()
-			defer cwdMu.Unlock()
-			must(os.Chdir(cwd))
-			defer func() { must(os.Chdir("/")) }()
 			err := reg.ScanStorage(name)
 			ids := []string{}
 			for id := range reg.Export() {
@@ -472,21 +555,30 @@ func runCase(cs caseSpec, caseDir string) (res caseResult) {
 	}
 	res.escaping = res.target == "" || !within(res.target, sb.root)
 
-	before := snapshot(sb.caseDir, sb.excl)
 	var err error
+	pre()
+	auditMark(markBegin)
 	p, stack := vlib.Catch(func() { err = op() })
-	after := snapshot(sb.caseDir, sb.excl)
+	auditMark(markEnd)
+	post()
+	after := snapshot(sb.caseDir)
 	if p != nil {
 		res.panicked = fmt.Sprintf("%v at %s", p, vlib.PanicSite(stack))
 		res.err, res.isErr = "panic: "+res.panicked, true
 	} else {
 		res.err, res.isErr = errStr(err)
 	}
-	res.changes = append(diffSnap(before, after), checkAbsProbes()...)
+	var dirty bool
+	res.changes, dirty = diffSnap(sb.caseDir, before, after, sb.excl)
+	res.changes = append(res.changes, checkAbsProbes()...)
+	sb.outsideDirty = len(res.changes) > 0
+	sb.insideDirty = dirty
 	// present paths relative to the sandbox so that details do not depend on the temp dir name
-	res.name = strings.ReplaceAll(res.name, sb.S, "{SANDBOX}")
-	res.target = strings.ReplaceAll(res.target, sb.S, "{SANDBOX}")
-	res.err = strings.ReplaceAll(res.err, sb.S, "{SANDBOX}")
+	anon := strings.NewReplacer(sb.S, "{SANDBOX}", workDir, "{WORK}")
+	res.name, res.target, res.err = anon.Replace(res.name), anon.Replace(res.target), anon.Replace(res.err)
+	for i := range res.changes {
+		res.changes[i] = anon.Replace(res.changes[i])
+	}
 	return res
 }
 
@@ -622,6 +714,11 @@ type rootSet struct {
 
 func main() {
 	vlib.Main("C18", "model_checking", func(c *vlib.Ctx) {
+		if c.Replay != "" {
+			if abs, err := filepath.Abs(c.Replay); err == nil {
+				c.Replay = abs // the harness changes its working directory below
+			}
+		}
 		log.SetLogLevel(log.CriticalLevel)
 		if err := log.Start(); err != nil {
 			c.EngineError("log.Start: %v", err)
@@ -633,13 +730,18 @@ func main() {
 				return
 			}
 		}
-		work, err := os.MkdirTemp("/tmp", "verif-c18-")
+		work, err := os.MkdirTemp(envOr("VERIF_C18_TMP", "/tmp"), "verif-c18-")
 		if err != nil {
 			c.EngineError("MkdirTemp: %v", err)
 			return
 		}
+		workDir = work
 		defer func() { _ = os.Chdir("/"); _ = os.RemoveAll(work) }()
 		must(os.Chdir("/"))
+		// fstree stages its writes through renameio, which uses the system temp
+		// dir when it is on the same file system: keep that inside the work dir
+		must(os.Mkdir(filepath.Join(work, "tmp"), 0o755))
+		must(os.Setenv("TMPDIR", filepath.Join(work, "tmp")))
 
 		if maybeAuditChild(c, work) {
 			return
@@ -651,11 +753,11 @@ func main() {
 				c.EngineError("cannot load replay: %v", err)
 				return
 			}
-			if cs.Comp == "audit" {
+			if cs.Audit {
 				replayAudit(c, cs, work)
 				return
 			}
-			res := runCase(cs, filepath.Join(work, "replay"))
+			res := runCase(cs, &worker{dir: filepath.Join(work, "replay")})
 			c.Add(1, 1, 1)
 			evaluate(c, cs, res, true)
 			return
@@ -684,7 +786,11 @@ func main() {
 		c.Assume("a panic of the implementation is counted as an error result (never observed), not as a violation: the property does not speak about panics")
 
 		var specs []caseSpec
+		only := os.Getenv("VERIF_C18_ONLY") // development aid: restrict to one component
 		for _, rs := range sets {
+			if only != "" && only != rs.comp {
+				continue
+			}
 			for _, chain := range rs.chains {
 				c.Scenario(fmt.Sprintf("%s root={SANDBOX}/%s", rs.comp, strings.Join(chain, "/")))
 				rl := rels(chain[len(chain)-1], maxSeg)
@@ -703,28 +809,45 @@ func main() {
 			}
 		}
 		results := make([]caseResult, len(specs))
+		// cases whose full result is kept as a sample even if nothing is wrong with them
+		keep := make([]bool, len(specs))
+		nKeep := map[string]int{}
+		for i, s := range specs {
+			if strings.HasPrefix(s.Rel, "../") && strings.Contains(s.Rel, "other") && nKeep[s.Comp+s.Op] < 1 {
+				nKeep[s.Comp+s.Op]++
+				keep[i] = true
+			}
+		}
 
 		// worker directories
-		pool := make(chan string, c.Workers+2)
+		pool := make(chan *worker, c.Workers+2)
 		for i := 0; i < c.Workers+2; i++ {
-			pool <- filepath.Join(work, fmt.Sprintf("w%d", i), "c")
+			pool <- &worker{dir: filepath.Join(work, fmt.Sprintf("w%d", i))}
 		}
 		runOne := func(i int) {
 			if c.Expired() {
 				return
 			}
 			d := <-pool
-			p, stack := vlib.Catch(func() { results[i] = runCase(specs[i], d) })
+			p, stack := vlib.Catch(func() {
+				r := runCase(specs[i], d)
+				if !keep[i] && len(r.changes) == 0 && len(r.outData) == 0 && (r.isErr || !r.escaping) && r.panicked == "" {
+					// nothing to report: keep only what the outcome statistics need
+					r = caseResult{done: true, escaping: r.escaping, isErr: r.isErr}
+				}
+				results[i] = r
+			})
 			pool <- d
 			if p != nil {
 				c.EngineError("case %+v: %v\n%s", specs[i], p, stack)
 			}
 		}
-		// cases that need the process working directory (scan) and the bridge
-		// (shared handler variable) run on one goroutine of their own
+		// cases that need the process working directory (scan with a relative
+		// name) and the bridge (shared handler variable) run on one goroutine of
+		// their own; nothing else in the process depends on the working directory
 		var serial, par []int
 		for i, s := range specs {
-			if s.Comp == "scan" || s.Comp == "bridge" {
+			if (s.Comp == "scan" && s.Prefix == prefNone) || s.Comp == "bridge" {
 				serial = append(serial, i)
 			} else {
 				par = append(par, i)
@@ -732,18 +855,20 @@ func main() {
 		}
 		var wg sync.WaitGroup
 		wg.Add(1)
+		t0 := time.Now()
 		go func() {
 			defer wg.Done()
 			for _, i := range serial {
 				runOne(i)
 			}
+			c.Extra("serial_part_wall_s", fmt.Sprintf("%.1f", time.Since(t0).Seconds()))
 		}()
 		c.ParallelFor(len(par), func(k int) { runOne(par[k]) })
+		c.Extra("parallel_part_wall_s", fmt.Sprintf("%.1f", time.Since(t0).Seconds()))
 		wg.Wait()
 
 		// evaluate in enumeration order (deterministic witnesses: simplest first)
 		seenInput := map[string]struct{}{}
-		nSample := map[string]int{}
 		for i, s := range specs {
 			r := results[i]
 			if !r.done {
@@ -757,8 +882,7 @@ func main() {
 			}
 			c.Add(st, 1, 1)
 			evaluate(c, s, r, false)
-			if r.escaping && strings.Count(s.Rel, "/") >= 1 && nSample[s.Comp] < 2 && strings.Contains(s.Rel, "other") {
-				nSample[s.Comp]++
+			if keep[i] {
 				c.Sample(map[string]any{"case": s.site(), "name": r.name, "root": "{SANDBOX}/" + strings.Join(s.Chain, "/"), "resolves_to": r.target, "error": r.err, "outside_changes": r.changes, "outside_data": r.outData})
 			}
 		}
@@ -767,4 +891,11 @@ func main() {
 
 		runAudit(c, work)
 	})
+}
+
+func envOr(k, d string) string {
+	if v := os.Getenv(k); v != "" {
+		return v
+	}
+	return d
 }
